@@ -158,20 +158,20 @@ def add_helper(unit, name, ty, line, analysis, opts=None):
         req["self_ty"] = it["self_ty"]
     ex = vxlib.run_vx([req])[key]
     if not ex["ret"] or ex["ret"] == "()":
-        raise vxlib.ToolTrouble(f"helper `{name}` returns nothing: its effect cannot be inferred as a postcondition (unsupported)")
+        raise vxlib.OutOfReach(f"helper `{name}` returns nothing: its effect cannot be inferred as a postcondition (unsupported)")
     if "async " in ex["sig"]:
-        raise vxlib.ToolTrouble(f"helper `{name}` is async (unsupported)")
+        raise vxlib.OutOfReach(f"helper `{name}` is async (unsupported)")
     params = _split_params(ex["sig"])
     args, has_self = [], False
     for p in params:
         if p in ("self", "&self"):
             has_self = True
         elif p.startswith("&mut self") or p.startswith("mut self") or "&mut " in p:
-            raise vxlib.ToolTrouble(f"helper `{name}` takes a mutable borrow: not expressible as a spec function (unsupported)")
+            raise vxlib.OutOfReach(f"helper `{name}` takes a mutable borrow: not expressible as a spec function (unsupported)")
         else:
             pat = p.split(":")[0].strip()
             if not re.fullmatch(r"\w+", pat):
-                raise vxlib.ToolTrouble(f"helper `{name}` has a pattern parameter (unsupported)")
+                raise vxlib.OutOfReach(f"helper `{name}` has a pattern parameter (unsupported)")
             args.append(pat)
     sname = "vxs_" + name
     call = (f"self.{sname}" if has_self else (f"Self::{sname}" if ty else sname)) + "(" + ", ".join(args) + ")"
@@ -186,7 +186,7 @@ def add_helper(unit, name, ty, line, analysis, opts=None):
     sig0 = re.sub(r"^((const|unsafe)\s+)*", "", ex["sig"].split("/*where*/")[0].strip())
     spec_sig = re.sub(r"^fn\s+" + re.escape(name) + r"\b", f"pub open spec fn {sname}", sig0, count=1)
     if not spec_sig.startswith("pub open spec fn"):
-        raise vxlib.ToolTrouble(f"helper `{name}`: unexpected signature `{sig0}`")
+        raise vxlib.OutOfReach(f"helper `{name}`: unexpected signature `{sig0}`")
     spec_body = "\n".join(ind + ln if ln else ln for ln in ex["body"].split("\n"))
     spec_txt = f"{ind}{spec_sig} -> {ex['ret']}\n{spec_body}\n"
     n0 = len(unit.parts)
